@@ -162,9 +162,12 @@ func ChunkStream(ctx context.Context, c Chunker, ws WriteStore, n int) (Index, e
 	// storage (if required). Each job comes with a chunk number for sorting later
 	for i := 0; i < n; i++ {
 		g.Go(func() error {
+			defer verifYield("pl.exit")
+			verifYield("pl.idle")
 			for c := range in {
 				// Create a chunk object, needed to calculate the checksum
 				chunk := NewChunk(c.b)
+				verifYield("pl.job", "id", chunk.ID(), "start", c.start, "num", c.num)
 
 				// Record the index row
 				idxChunk := IndexChunk{Start: c.start, Size: uint64(len(c.b)), ID: chunk.ID()}
@@ -173,6 +176,7 @@ func ChunkStream(ctx context.Context, c Chunker, ws WriteStore, n int) (Index, e
 				if err := s.StoreChunk(chunk); err != nil {
 					return err
 				}
+				verifYield("pl.idle")
 			}
 			return nil
 		})
@@ -193,13 +197,16 @@ loop:
 		}
 
 		// Send it off for compression and storage
+		verifYield("pl.feed", "start", start, "num", num)
 		select {
 		case <-ctx.Done():
+			verifYield("pl.leave")
 			break loop
 		case in <- chunkJob{num: num, start: start, b: b}:
 		}
 		num++
 	}
+	verifYield("pl.close")
 	close(in)
 
 	if err := g.Wait(); err != nil {
